@@ -129,7 +129,8 @@ func compsOf(t types.Type) ([]comp, error) {
 	case *types.Struct:
 		return nil, fmt.Errorf("struct type %s has no flat components", t)
 	case *types.Array:
-		return nil, fmt.Errorf("array type %s unsupported", t)
+		// array values are opaque (one abstract component); element access is unsupported
+		return []comp{{"", SInt}}, nil
 	case *types.Tuple:
 		return nil, fmt.Errorf("tuple type unsupported here")
 	}
